@@ -174,8 +174,15 @@ def run(tier, seed, work):
     rc, so, se, cmd = tc.clang_ll(p, out, "ub")
     if rc != 0:
         raise tc.AnalysisBroken("sqrt TU does not compile: " + se[:1500])
-    mod = ir.parse_module(open(out).read())
-    bounds = scev_bounds(out)
+    ubmod = ir.parse_module(open(out).read())
+    # termination is judged on the plain release build (in the sanitized build a trapping overflow check of an unrelated
+    # counter would itself bound the loop)
+    out2 = os.path.join(work, "sq_rel.ll")
+    rc, so, se, cmd = tc.clang_ll(p, out2, "eqr")
+    if rc != 0:
+        raise tc.AnalysisBroken("sqrt TU does not compile: " + se[:1500])
+    mod = ir.parse_module(open(out2).read())
+    bounds = scev_bounds(out2)
     nloops, nbounded, nranked, samples = 0, 0, 0, []
     for T in REPS:
         fn = mod.functions.get("sq_" + T.short)
@@ -183,7 +190,10 @@ def run(tier, seed, work):
             r.broke("sqrt kernel for %s missing" % T.short)
             continue
         txt = fn.text()
-        if "@llvm.ubsantrap(i8 20)" in txt:
+        ubfn = ubmod.functions.get("sq_" + T.short)
+        if ubfn is None:
+            r.broke("sanitized sqrt kernel for %s missing" % T.short)
+        elif "@llvm.ubsantrap(i8 20)" in ubfn.text():
             r.violation("ub/shift/" + T.short, "cnl::sqrt<%s>: an out-of-range shift is not excluded (the initial bit position or bit >>= 2)" % T.name, {"ir": txt})
         rr = dict((h, (ok, why)) for h, ok, why in ranking_rule(fn))
         sb = bounds.get("sq_" + T.short, {})
